@@ -9,8 +9,19 @@
 //	*.go        : the receiver structs (packet.pb.go: Packet, Acknowledgement, TransferData, CallData; packet.go:
 //	              Result): field names, Go types, raw json tags
 //
-// Subset handled (anything else => exit 1): component types uint64 / string / bytes with ASCII names
-// [A-Za-z0-9_]+, no nested components, no `abi:` struct tags, struct field types uint64 / string / []byte.
+// Subset: component types uint64 / string / bytes with ASCII names [A-Za-z0-9_]+, no nested components, no `abi:` struct
+// tags, struct field types uint64 / string / []byte.
+//
+// The tuple an ABIPack / ABIDecode method uses is found by a small symbolic evaluation, not by the shape of the method:
+// the `X.Pack(v)` / `X.Unpack(bz)` call may sit in the method itself or in unexported same-package helpers it calls
+// (transitively; the tuple type / the abi.Arguments value handed down as a parameter), X may be the literal
+// abi.Arguments{{Type: T}}, a local variable or a package variable holding it; T may be a package variable assigned once
+// (in an init function from a local, directly from abi.NewType, or by a `var T = f(...)` initialiser), a parameter, a local
+// variable, or a call of a same-package function returning the abi.NewType result; the components may be a literal or a
+// variable / parameter holding the literal.  The JSON re-mapping step (json.Marshal + json.Unmarshal) may be in the method or
+// in a helper.  Degradation is PER TUPLE: when the tuple of one method cannot be determined (or is outside the subset) that
+// schema gets a poisoned tuple (a component no struct field matches), so that exactly the obligations of that encoding fail;
+// the translator exits non-zero only when the package cannot be read or parsed.
 package main
 
 import (
@@ -63,18 +74,19 @@ func coqBytes(s string) string {
 	return "[" + strings.Join(parts, ";") + "]"
 }
 
-func coqTy(t string, where string) string {
+func coqTy(t string) (string, bool) {
 	switch t {
 	case "uint64":
-		return "TU64"
+		return "TU64", true
 	case "string":
-		return "TStr"
+		return "TStr", true
 	case "bytes", "[]byte":
-		return "TBytes"
+		return "TBytes", true
 	}
-	die("%s: type %q is outside the translator's subset (uint64, string, bytes)", where, t)
-	return ""
+	return "", false
 }
+
+func warn(f string, a ...interface{}) { fmt.Fprintf(os.Stderr, "abischema: "+f+"\n", a...) }
 
 func typeString(e ast.Expr) string {
 	switch e := e.(type) {
@@ -102,6 +114,459 @@ func recvName(e ast.Expr) string {
 	return "?"
 }
 
+// ---------------------------------------------------------------------------------------------
+// symbolic evaluation
+
+type scope struct {
+	fd     *ast.FuncDecl
+	params map[string]bound    // parameter -> the caller's argument
+	locals map[string]ast.Expr // local variables assigned exactly once
+}
+
+type bound struct {
+	e  ast.Expr
+	sc *scope
+}
+
+type tupleVal struct {
+	name   string // the package variable it was reached through ("" = anonymous)
+	fields []tfield
+}
+
+type world struct {
+	fset    *token.FileSet
+	files   []*ast.File
+	funcs   map[string]*ast.FuncDecl // plain functions
+	methods map[string]*ast.FuncDecl // "Recv.Name"
+	gvars   map[string]ast.Expr      // package-level var with an initialiser
+	gtuples map[string]*tupleVal     // memo (nil entry = undetermined)
+	gdone   map[string]bool
+}
+
+func paren(e ast.Expr) ast.Expr {
+	for {
+		switch v := e.(type) {
+		case *ast.ParenExpr:
+			e = v.X
+		case *ast.UnaryExpr:
+			if v.Op != token.AND {
+				return e
+			}
+			e = v.X
+		case *ast.StarExpr:
+			e = v.X
+		default:
+			return e
+		}
+	}
+}
+
+// localsOf: x := e, x, err := f(), var x = e  (assigned exactly once)
+func localsOf(fd *ast.FuncDecl) map[string]ast.Expr {
+	count := map[string]int{}
+	val := map[string]ast.Expr{}
+	defined := map[string]bool{} // declared inside the function (:= or var), i.e. not a package variable
+	if fd.Type.Results != nil {
+		for _, r := range fd.Type.Results.List {
+			for _, nm := range r.Names {
+				defined[nm.Name] = true
+			}
+		}
+	}
+	ast.Inspect(fd.Body, func(n ast.Node) bool {
+		switch st := n.(type) {
+		case *ast.AssignStmt:
+			for i, l := range st.Lhs {
+				id, ok := l.(*ast.Ident)
+				if !ok || id.Name == "_" {
+					continue
+				}
+				count[id.Name]++
+				if st.Tok == token.DEFINE {
+					defined[id.Name] = true
+				}
+				switch {
+				case len(st.Lhs) == len(st.Rhs):
+					val[id.Name] = st.Rhs[i]
+				case len(st.Rhs) == 1 && i == 0:
+					val[id.Name] = st.Rhs[0] // first result of a multi-valued call
+				default:
+					val[id.Name] = nil
+				}
+			}
+		case *ast.ValueSpec:
+			for i, id := range st.Names {
+				defined[id.Name] = true
+				switch {
+				case i < len(st.Values):
+					count[id.Name]++
+					val[id.Name] = st.Values[i]
+				case len(st.Values) == 1 && i == 0:
+					count[id.Name]++
+					val[id.Name] = st.Values[0]
+				}
+			}
+		}
+		return true
+	})
+	out := map[string]ast.Expr{}
+	for n, c := range count {
+		if c == 1 && val[n] != nil && defined[n] {
+			out[n] = val[n]
+		}
+	}
+	return out
+}
+
+func (w *world) newScope(fd *ast.FuncDecl, args []ast.Expr, caller *scope) *scope {
+	sc := &scope{fd: fd, params: map[string]bound{}, locals: localsOf(fd)}
+	i := 0
+	for _, p := range fd.Type.Params.List {
+		for _, nm := range p.Names {
+			if i < len(args) {
+				sc.params[nm.Name] = bound{args[i], caller}
+			}
+			i++
+		}
+		if len(p.Names) == 0 {
+			i++
+		}
+	}
+	return sc
+}
+
+// the components literal []abi.ArgumentMarshaling{{Name: .., Type: ..}, ...}
+func (w *world) components(e ast.Expr, sc *scope, depth int) ([]tfield, bool) {
+	if depth > 8 {
+		return nil, false
+	}
+	switch v := paren(e).(type) {
+	case *ast.Ident:
+		if sc != nil {
+			if b, ok := sc.params[v.Name]; ok {
+				return w.components(b.e, b.sc, depth+1)
+			}
+			if rhs, ok := sc.locals[v.Name]; ok {
+				return w.components(rhs, sc, depth+1)
+			}
+		}
+		if rhs, ok := w.gvars[v.Name]; ok {
+			return w.components(rhs, nil, depth+1)
+		}
+		return nil, false
+	case *ast.CompositeLit:
+		var fields []tfield
+		seen := map[string]bool{}
+		for _, el := range v.Elts {
+			c, ok := el.(*ast.CompositeLit)
+			if !ok {
+				return nil, false
+			}
+			var tf tfield
+			for _, kvE := range c.Elts {
+				kv, ok := kvE.(*ast.KeyValueExpr)
+				if !ok {
+					return nil, false
+				}
+				key, ok := kv.Key.(*ast.Ident)
+				if !ok {
+					return nil, false
+				}
+				lit, ok := kv.Value.(*ast.BasicLit)
+				if !ok || lit.Kind != token.STRING {
+					return nil, false // nested components etc.
+				}
+				s, _ := strconv.Unquote(lit.Value)
+				switch key.Name {
+				case "Name":
+					tf.name = s
+				case "Type":
+					tf.ty = s
+				case "InternalType":
+				default:
+					return nil, false
+				}
+			}
+			if _, ok := coqTy(tf.ty); !ok || !nameRe.MatchString(tf.name) || seen[tf.name] {
+				return nil, false
+			}
+			seen[tf.name] = true
+			fields = append(fields, tf)
+		}
+		return fields, true
+	}
+	return nil, false
+}
+
+func isPkgCall(call *ast.CallExpr, pkg, fn string) bool {
+	se, ok := call.Fun.(*ast.SelectorExpr)
+	if !ok || se.Sel.Name != fn {
+		return false
+	}
+	id, ok := se.X.(*ast.Ident)
+	return ok && id.Name == pkg
+}
+
+// the value a function returns (first result): the last return statement whose first result evaluates
+func (w *world) returned(fd *ast.FuncDecl, sc *scope, depth int, eval func(ast.Expr, *scope, int) (*tupleVal, bool)) (*tupleVal, bool) {
+	var rets []*ast.ReturnStmt
+	ast.Inspect(fd.Body, func(n ast.Node) bool {
+		if _, isLit := n.(*ast.FuncLit); isLit {
+			return false
+		}
+		if r, ok := n.(*ast.ReturnStmt); ok && len(r.Results) > 0 {
+			rets = append(rets, r)
+		}
+		return true
+	})
+	for i := len(rets) - 1; i >= 0; i-- {
+		if t, ok := eval(rets[i].Results[0], sc, depth+1); ok {
+			return t, true
+		}
+	}
+	// named result assigned in the body
+	if fd.Type.Results != nil && len(fd.Type.Results.List) > 0 && len(fd.Type.Results.List[0].Names) > 0 {
+		if rhs, ok := sc.locals[fd.Type.Results.List[0].Names[0].Name]; ok {
+			return eval(rhs, sc, depth+1)
+		}
+	}
+	return nil, false
+}
+
+// an expression of type abi.Type
+func (w *world) tuple(e ast.Expr, sc *scope, depth int) (*tupleVal, bool) {
+	if depth > 10 {
+		return nil, false
+	}
+	switch v := paren(e).(type) {
+	case *ast.Ident:
+		if sc != nil {
+			if b, ok := sc.params[v.Name]; ok {
+				return w.tuple(b.e, b.sc, depth+1)
+			}
+			if rhs, ok := sc.locals[v.Name]; ok {
+				return w.tuple(rhs, sc, depth+1)
+			}
+		}
+		return w.globalTuple(v.Name, depth)
+	case *ast.CallExpr:
+		if isPkgCall(v, "abi", "NewType") {
+			if len(v.Args) != 3 {
+				return nil, false
+			}
+			k, ok := v.Args[0].(*ast.BasicLit)
+			if !ok || k.Value != `"tuple"` {
+				return nil, false
+			}
+			f, ok := w.components(v.Args[2], sc, depth+1)
+			if !ok {
+				return nil, false
+			}
+			return &tupleVal{fields: f}, true
+		}
+		if id, ok := v.Fun.(*ast.Ident); ok {
+			if g, ok := w.funcs[id.Name]; ok && g.Body != nil {
+				return w.returned(g, w.newScope(g, v.Args, sc), depth, w.tuple)
+			}
+		}
+	}
+	return nil, false
+}
+
+// a package variable of type abi.Type: `var G = e`, or assigned exactly once inside a function (G = e / G, err = e)
+func (w *world) globalTuple(name string, depth int) (*tupleVal, bool) {
+	if w.gdone[name] {
+		t := w.gtuples[name]
+		return t, t != nil
+	}
+	w.gdone[name] = true
+	var found []*tupleVal
+	undetermined := false
+	if rhs, ok := w.gvars[name]; ok {
+		if t, ok := w.tuple(rhs, nil, depth+1); ok {
+			found = append(found, t)
+		} else {
+			undetermined = true
+		}
+	}
+	for _, fd := range w.allFuncs() {
+		var sc *scope
+		ast.Inspect(fd.Body, func(n ast.Node) bool {
+			as, ok := n.(*ast.AssignStmt)
+			if !ok || as.Tok != token.ASSIGN {
+				return true
+			}
+			for i, l := range as.Lhs {
+				id, ok := l.(*ast.Ident)
+				if !ok || id.Name != name {
+					continue
+				}
+				var rhs ast.Expr
+				switch {
+				case len(as.Lhs) == len(as.Rhs):
+					rhs = as.Rhs[i]
+				case len(as.Rhs) == 1 && i == 0:
+					rhs = as.Rhs[0]
+				}
+				if sc == nil {
+					sc = &scope{fd: fd, params: map[string]bound{}, locals: localsOf(fd)}
+				}
+				if _, shadow := sc.locals[name]; shadow {
+					continue
+				}
+				if rhs == nil {
+					undetermined = true
+					continue
+				}
+				if t, ok := w.tuple(rhs, sc, depth+1); ok {
+					found = append(found, t)
+				} else {
+					undetermined = true
+				}
+			}
+			return true
+		})
+	}
+	if undetermined || len(found) != 1 {
+		w.gtuples[name] = nil
+		return nil, false
+	}
+	t := &tupleVal{name: name, fields: found[0].fields}
+	w.gtuples[name] = t
+	return t, true
+}
+
+func (w *world) allFuncs() []*ast.FuncDecl {
+	var out []*ast.FuncDecl
+	for _, f := range w.files {
+		for _, d := range f.Decls {
+			if fd, ok := d.(*ast.FuncDecl); ok && fd.Body != nil {
+				out = append(out, fd)
+			}
+		}
+	}
+	return out
+}
+
+// an expression of type abi.Arguments with exactly one (tuple) argument
+func (w *world) arguments(e ast.Expr, sc *scope, depth int) (t *tupleVal, isArgs bool, ok bool) {
+	if depth > 10 {
+		return nil, false, false
+	}
+	switch v := paren(e).(type) {
+	case *ast.CompositeLit:
+		if typeString(v.Type) != "abi.Arguments" {
+			return nil, false, false
+		}
+		if len(v.Elts) != 1 {
+			return nil, true, false
+		}
+		arg, ok := v.Elts[0].(*ast.CompositeLit)
+		if !ok {
+			return nil, true, false
+		}
+		for _, el := range arg.Elts {
+			kv, ok := el.(*ast.KeyValueExpr)
+			if !ok {
+				return nil, true, false
+			}
+			if k, ok := kv.Key.(*ast.Ident); ok && k.Name == "Type" {
+				t, ok := w.tuple(kv.Value, sc, depth+1)
+				return t, true, ok
+			}
+		}
+		return nil, true, false
+	case *ast.Ident:
+		if sc != nil {
+			if b, ok := sc.params[v.Name]; ok {
+				return w.arguments(b.e, b.sc, depth+1)
+			}
+			if rhs, ok := sc.locals[v.Name]; ok {
+				return w.arguments(rhs, sc, depth+1)
+			}
+		}
+		if rhs, ok := w.gvars[v.Name]; ok {
+			return w.arguments(rhs, nil, depth+1)
+		}
+	case *ast.CallExpr:
+		if id, ok := v.Fun.(*ast.Ident); ok {
+			if g, ok := w.funcs[id.Name]; ok && g.Body != nil {
+				sc2 := w.newScope(g, v.Args, sc)
+				var res *tupleVal
+				var isA, good bool
+				w.returned(g, sc2, depth, func(e ast.Expr, s *scope, d int) (*tupleVal, bool) {
+					t, a, ok := w.arguments(e, s, d)
+					if a {
+						res, isA, good = t, true, ok
+					}
+					return t, a
+				})
+				return res, isA, good
+			}
+		}
+	}
+	return nil, false, false
+}
+
+type abiOp struct {
+	kind string // Pack | Unpack
+	t    *tupleVal
+	ok   bool
+	pos  token.Position
+}
+
+type analysis struct {
+	ops                []abiOp
+	marshal, unmarshal bool
+}
+
+// walks the body of fd (and, transitively, of the same-package functions / own-receiver methods it calls)
+func (w *world) analyse(fd *ast.FuncDecl, sc *scope, depth int, stack map[*ast.FuncDecl]bool, a *analysis) {
+	if depth > 6 || stack[fd] {
+		return
+	}
+	stack[fd] = true
+	defer delete(stack, fd)
+	recvVar, recvType := "", ""
+	if fd.Recv != nil && len(fd.Recv.List) == 1 {
+		recvType = recvName(fd.Recv.List[0].Type)
+		if len(fd.Recv.List[0].Names) == 1 {
+			recvVar = fd.Recv.List[0].Names[0].Name
+		}
+	}
+	ast.Inspect(fd.Body, func(n ast.Node) bool {
+		call, ok := n.(*ast.CallExpr)
+		if !ok {
+			return true
+		}
+		switch f := call.Fun.(type) {
+		case *ast.SelectorExpr:
+			if id, ok := f.X.(*ast.Ident); ok && id.Name == "json" {
+				a.marshal = a.marshal || f.Sel.Name == "Marshal"
+				a.unmarshal = a.unmarshal || f.Sel.Name == "Unmarshal"
+				return true
+			}
+			if f.Sel.Name == "Pack" || f.Sel.Name == "Unpack" {
+				if t, isArgs, ok := w.arguments(f.X, sc, 0); isArgs {
+					a.ops = append(a.ops, abiOp{f.Sel.Name, t, ok, w.fset.Position(call.Pos())})
+					return true
+				}
+			}
+			// a method of the own receiver
+			if id, ok := f.X.(*ast.Ident); ok && recvVar != "" && id.Name == recvVar {
+				if g, ok := w.methods[recvType+"."+f.Sel.Name]; ok && g.Body != nil {
+					w.analyse(g, w.newScope(g, call.Args, sc), depth+1, stack, a)
+				}
+			}
+		case *ast.Ident:
+			if g, ok := w.funcs[f.Name]; ok && g.Body != nil {
+				w.analyse(g, w.newScope(g, call.Args, sc), depth+1, stack, a)
+			}
+		}
+		return true
+	})
+}
+
 func main() {
 	repo := flag.String("repo", "/repo", "source tree")
 	out := flag.String("out", "", "output directory (coq/theories/Gen)")
@@ -114,7 +579,9 @@ func main() {
 	if err != nil {
 		die("%v", err)
 	}
-	var files []*ast.File
+	w := &world{fset: fset, funcs: map[string]*ast.FuncDecl{}, methods: map[string]*ast.FuncDecl{}, gvars: map[string]ast.Expr{},
+		gtuples: map[string]*tupleVal{}, gdone: map[string]bool{}}
+	var typeVars []string // package variables declared with type abi.Type (in source order)
 	for _, e := range ents {
 		n := e.Name()
 		if e.IsDir() || !strings.HasSuffix(n, ".go") || strings.HasSuffix(n, "_test.go") || strings.HasSuffix(n, "_verif.go") ||
@@ -125,189 +592,104 @@ func main() {
 		if err != nil {
 			die("parse %s: %v", n, err)
 		}
-		files = append(files, f)
+		w.files = append(w.files, f)
 	}
-
-	// 1. tuples: local variable := abi.NewType("tuple", "", []abi.ArgumentMarshaling{...}); Global = local
-	tuples := map[string][]tfield{} // by package variable
-	for _, f := range files {
+	for _, f := range w.files {
 		for _, d := range f.Decls {
-			fd, ok := d.(*ast.FuncDecl)
-			if !ok || fd.Body == nil {
-				continue
+			switch d := d.(type) {
+			case *ast.FuncDecl:
+				if d.Recv != nil && len(d.Recv.List) == 1 {
+					w.methods[recvName(d.Recv.List[0].Type)+"."+d.Name.Name] = d
+				} else {
+					w.funcs[d.Name.Name] = d
+				}
+			case *ast.GenDecl:
+				if d.Tok != token.VAR {
+					continue
+				}
+				for _, sp := range d.Specs {
+					vs := sp.(*ast.ValueSpec)
+					for i, id := range vs.Names {
+						switch {
+						case i < len(vs.Values):
+							w.gvars[id.Name] = vs.Values[i]
+						case len(vs.Values) == 1 && i == 0:
+							w.gvars[id.Name] = vs.Values[0]
+						}
+						if vs.Type != nil && typeString(vs.Type) == "abi.Type" {
+							typeVars = append(typeVars, id.Name)
+						}
+					}
+				}
 			}
-			locals := map[string][]tfield{}
-			ast.Inspect(fd.Body, func(n ast.Node) bool {
-				as, ok := n.(*ast.AssignStmt)
-				if !ok {
-					return true
-				}
-				// x, err := abi.NewType(...)
-				if len(as.Rhs) == 1 {
-					if call, ok := as.Rhs[0].(*ast.CallExpr); ok {
-						if se, ok := call.Fun.(*ast.SelectorExpr); ok && se.Sel.Name == "NewType" {
-							if id, ok := se.X.(*ast.Ident); ok && id.Name == "abi" {
-								pos := fset.Position(call.Pos())
-								if len(call.Args) != 3 {
-									die("%s: abi.NewType with %d arguments", pos, len(call.Args))
-								}
-								k, ok := call.Args[0].(*ast.BasicLit)
-								if !ok || k.Value != `"tuple"` {
-									die("%s: abi.NewType of something other than \"tuple\"", pos)
-								}
-								cl, ok := call.Args[2].(*ast.CompositeLit)
-								if !ok {
-									die("%s: components are not a composite literal", pos)
-								}
-								var fields []tfield
-								for _, el := range cl.Elts {
-									c, ok := el.(*ast.CompositeLit)
-									if !ok {
-										die("%s: component is not a composite literal", pos)
-									}
-									var tf tfield
-									for _, kvE := range c.Elts {
-										kv, ok := kvE.(*ast.KeyValueExpr)
-										if !ok {
-											die("%s: positional ArgumentMarshaling fields", pos)
-										}
-										key := kv.Key.(*ast.Ident).Name
-										lit, ok := kv.Value.(*ast.BasicLit)
-										if !ok || lit.Kind != token.STRING {
-											die("%s: ArgumentMarshaling.%s is not a string literal (nested components are outside the subset)", pos, key)
-										}
-										v, _ := strconv.Unquote(lit.Value)
-										switch key {
-										case "Name":
-											tf.name = v
-										case "Type":
-											tf.ty = v
-										case "InternalType":
-										default:
-											die("%s: ArgumentMarshaling.%s outside the subset", pos, key)
-										}
-									}
-									if !nameRe.MatchString(tf.name) {
-										die("%s: component name %q outside the subset [A-Za-z0-9_]+", pos, tf.name)
-									}
-									fields = append(fields, tf)
-								}
-								seen := map[string]bool{}
-								for _, tf := range fields {
-									if seen[tf.name] {
-										die("%s: duplicate component name %q", pos, tf.name)
-									}
-									seen[tf.name] = true
-								}
-								if len(as.Lhs) < 1 {
-									die("%s: NewType result not assigned", pos)
-								}
-								if id, ok := as.Lhs[0].(*ast.Ident); ok {
-									locals[id.Name] = fields
-								}
-								return true
-							}
-						}
-					}
-				}
-				// Global = local
-				if len(as.Lhs) == 1 && len(as.Rhs) == 1 && as.Tok == token.ASSIGN {
-					l, ok1 := as.Lhs[0].(*ast.Ident)
-					r, ok2 := as.Rhs[0].(*ast.Ident)
-					if ok1 && ok2 {
-						if fl, ok := locals[r.Name]; ok {
-							if _, dup := tuples[l.Name]; dup {
-								die("%s: tuple variable %s assigned twice", fset.Position(as.Pos()), l.Name)
-							}
-							tuples[l.Name] = fl
-						}
-					}
-				}
-				return true
-			})
 		}
 	}
 
-	// 2. ABIPack / ABIDecode methods: receiver -> tuple variable
-	packOf, unpackOf := map[string]string{}, map[string]string{}
-	for _, f := range files {
-		for _, d := range f.Decls {
-			fd, ok := d.(*ast.FuncDecl)
-			if !ok || fd.Recv == nil || fd.Body == nil || (fd.Name.Name != "ABIPack" && fd.Name.Name != "ABIDecode") {
-				continue
-			}
-			recv := recvName(fd.Recv.List[0].Type)
-			var found []string
-			var method string
-			ast.Inspect(fd.Body, func(n ast.Node) bool {
-				call, ok := n.(*ast.CallExpr)
-				if !ok {
-					return true
-				}
-				se, ok := call.Fun.(*ast.SelectorExpr)
-				if !ok || (se.Sel.Name != "Pack" && se.Sel.Name != "Unpack") {
-					return true
-				}
-				cl, ok := se.X.(*ast.CompositeLit)
-				if !ok || typeString(cl.Type) != "abi.Arguments" {
-					return true
-				}
-				pos := fset.Position(call.Pos())
-				if len(cl.Elts) != 1 {
-					die("%s: abi.Arguments with %d arguments (exactly one tuple expected)", pos, len(cl.Elts))
-				}
-				arg, ok := cl.Elts[0].(*ast.CompositeLit)
-				if !ok || len(arg.Elts) != 1 {
-					die("%s: abi.Argument literal outside the subset", pos)
-				}
-				kv, ok := arg.Elts[0].(*ast.KeyValueExpr)
-				if !ok || kv.Key.(*ast.Ident).Name != "Type" {
-					die("%s: abi.Argument literal outside the subset", pos)
-				}
-				id, ok := kv.Value.(*ast.Ident)
-				if !ok {
-					die("%s: abi.Argument Type is not a package variable", pos)
-				}
-				found = append(found, id.Name)
-				method = se.Sel.Name
-				return true
-			})
-			if len(found) != 1 {
-				die("%s.%s: %d abi.Arguments{...}.Pack/Unpack calls (exactly one expected)", recv, fd.Name.Name, len(found))
-			}
-			if fd.Name.Name == "ABIPack" {
-				if method != "Pack" {
-					die("%s.ABIPack does not call Pack", recv)
-				}
-				packOf[recv] = found[0]
-			} else {
-				if method != "Unpack" {
-					die("%s.ABIDecode does not call Unpack", recv)
-				}
-				// the JSON re-mapping step must be there: json.Marshal(dataBz[0]) ; json.Unmarshal(bzTmp, &recv)
-				var marshal, unmarshal bool
-				ast.Inspect(fd.Body, func(n ast.Node) bool {
-					if call, ok := n.(*ast.CallExpr); ok {
-						if se, ok := call.Fun.(*ast.SelectorExpr); ok {
-							if id, ok := se.X.(*ast.Ident); ok && id.Name == "json" {
-								marshal = marshal || se.Sel.Name == "Marshal"
-								unmarshal = unmarshal || se.Sel.Name == "Unmarshal"
-							}
-						}
+	// 1. the tuples held in package variables
+	named := map[string][]tfield{}
+	for _, n := range typeVars {
+		if t, ok := w.globalTuple(n, 0); ok {
+			named[n] = t.fields
+		}
+	}
+	for n := range w.gvars {
+		if t, ok := w.globalTuple(n, 0); ok {
+			named[n] = t.fields
+		}
+	}
+
+	// 2. ABIPack / ABIDecode of the wanted receivers
+	type use struct {
+		t    *tupleVal
+		why  string // "" = determined
+		name string // Coq name of the tuple definition
+	}
+	packOf, unpackOf := map[string]*use{}, map[string]*use{}
+	for _, wd := range wanted {
+		for _, m := range []string{"ABIPack", "ABIDecode"} {
+			u := &use{}
+			fd, ok := w.methods[wd.recv+"."+m]
+			switch {
+			case !ok || fd.Body == nil:
+				u.why = "method " + wd.recv + "." + m + " not found"
+			default:
+				a := &analysis{}
+				w.analyse(fd, w.newScope(fd, nil, nil), 0, map[*ast.FuncDecl]bool{}, a)
+				want := map[string]string{"ABIPack": "Pack", "ABIDecode": "Unpack"}[m]
+				var ops []abiOp
+				for _, o := range a.ops {
+					if o.kind == want {
+						ops = append(ops, o)
 					}
-					return true
-				})
-				if !marshal || !unmarshal {
-					die("%s.ABIDecode no longer converts through json.Marshal / json.Unmarshal: the model's re-mapping step does not apply", recv)
 				}
-				unpackOf[recv] = found[0]
+				switch {
+				case len(ops) != 1:
+					u.why = fmt.Sprintf("%d abi.Arguments.%s calls reachable from %s.%s (exactly one expected)", len(ops), want, wd.recv, m)
+				case len(a.ops) != 1:
+					u.why = fmt.Sprintf("%s.%s also reaches abi.Arguments.%s", wd.recv, m, map[string]string{"Pack": "Unpack", "Unpack": "Pack"}[want])
+				case !ops[0].ok || ops[0].t == nil:
+					u.why = fmt.Sprintf("%s: the tuple type handed to %s cannot be determined (or is outside the subset)", ops[0].pos, want)
+				case m == "ABIDecode" && !(a.marshal && a.unmarshal):
+					u.why = wd.recv + ".ABIDecode no longer converts through json.Marshal / json.Unmarshal: the model's re-mapping step does not apply"
+				default:
+					u.t = ops[0].t
+				}
+			}
+			if u.why != "" {
+				warn("%s_schema: %s: poisoned tuple", wd.out, u.why)
+			}
+			if m == "ABIPack" {
+				packOf[wd.recv] = u
+			} else {
+				unpackOf[wd.recv] = u
 			}
 		}
 	}
 
 	// 3. structs
 	structs := map[string][]sfield{}
-	for _, f := range files {
+	structBad := map[string]string{}
+	for _, f := range w.files {
 		for _, d := range f.Decls {
 			gd, ok := d.(*ast.GenDecl)
 			if !ok || gd.Tok != token.TYPE {
@@ -320,27 +702,31 @@ func main() {
 					continue
 				}
 				need := false
-				for _, w := range wanted {
-					need = need || w.recv == ts.Name.Name
+				for _, wd := range wanted {
+					need = need || wd.recv == ts.Name.Name
 				}
 				if !need {
 					continue
 				}
+				bad := func(f string, a ...interface{}) { structBad[ts.Name.Name] = fmt.Sprintf(f, a...) }
 				var fields []sfield
 				for _, fl := range st.Fields.List {
 					if len(fl.Names) == 0 {
-						die("struct %s: embedded field outside the subset", ts.Name.Name)
+						bad("embedded field outside the subset")
 					}
 					for _, nm := range fl.Names {
 						if !ast.IsExported(nm.Name) {
 							continue // invisible to both abi and encoding/json
 						}
 						sf := sfield{goName: nm.Name, ty: typeString(fl.Type)}
+						if _, ok := coqTy(sf.ty); !ok {
+							bad("field %s has type %s, outside the subset (uint64, string, []byte)", nm.Name, sf.ty)
+						}
 						if fl.Tag != nil {
 							raw, _ := strconv.Unquote(fl.Tag.Value)
 							stag := reflect.StructTag(raw)
 							if _, has := stag.Lookup("abi"); has {
-								die("struct %s.%s: `abi:` tag outside the subset", ts.Name.Name, nm.Name)
+								bad("field %s: `abi:` tag outside the subset", nm.Name)
 							}
 							if v, has := stag.Lookup("json"); has {
 								sf.tag, sf.hasTag = v, true
@@ -362,7 +748,7 @@ func main() {
 						}
 					}
 					if seenJSON[strings.ToUpper(n)] {
-						die("struct %s: two fields share the JSON name %q (case-insensitively): outside the subset", ts.Name.Name, n)
+						bad("two fields share the JSON name %q (case-insensitively): outside the subset", n)
 					}
 					seenJSON[strings.ToUpper(n)] = true
 				}
@@ -374,35 +760,56 @@ func main() {
 	var b bytes.Buffer
 	b.WriteString("(* GENERATED by tools/gotocoq/abischema from x/xibc/core/packet/types -- do not edit. *)\n")
 	b.WriteString("From Teleport Require Import Base.Bytes Base.AbiSchema.\n\n")
-	tnames := make([]string, 0, len(tuples))
-	for n := range tuples {
+	clean := func(s string) string {
+		return strings.ReplaceAll(strings.ReplaceAll(strings.ReplaceAll(s, "(*", "( *"), "*)", "* )"), "\"", "'")
+	}
+	emitTuple := func(coqName, comment string, fields []tfield) {
+		var parts, human []string
+		for _, tf := range fields {
+			ty, _ := coqTy(tf.ty)
+			parts = append(parts, fmt.Sprintf("{| tf_name := %s; tf_ty := %s |}", coqBytes(tf.name), ty))
+			human = append(human, tf.name+":"+tf.ty)
+		}
+		fmt.Fprintf(&b, "(* %s = (%s) *)\nDefinition %s : list tfield :=\n  [%s].\n\n", comment, strings.Join(human, ", "), coqName, strings.Join(parts, ";\n   "))
+	}
+	tnames := make([]string, 0, len(named))
+	for n := range named {
 		tnames = append(tnames, n)
 	}
 	sort.Strings(tnames)
 	for _, n := range tnames {
-		var parts []string
-		var human []string
-		for _, tf := range tuples[n] {
-			parts = append(parts, fmt.Sprintf("{| tf_name := %s; tf_ty := %s |}", coqBytes(tf.name), coqTy(tf.ty, "tuple "+n+"."+tf.name)))
-			human = append(human, tf.name+":"+tf.ty)
-		}
-		fmt.Fprintf(&b, "(* evm.go %s = (%s) *)\nDefinition tuple_%s : list tfield :=\n  [%s].\n\n", n, strings.Join(human, ", "), n, strings.Join(parts, ";\n   "))
+		emitTuple("tuple_"+n, "evm.go "+n, named[n])
 	}
-	for _, w := range wanted {
-		sf, ok := structs[w.recv]
+	// the poisoned component: no Go struct field is called ToCamelCase("?") and no json name matches it
+	poison := func(coqName, why string) {
+		fmt.Fprintf(&b, "(* POISONED: %s *)\nDefinition %s : list tfield :=\n  [{| tf_name := [x3f]; tf_ty := TU64 |}].\n\n", clean(why), coqName)
+	}
+	for _, wd := range wanted {
+		pk, up := packOf[wd.recv], unpackOf[wd.recv]
+		for _, x := range []struct {
+			u   *use
+			suf string
+		}{{pk, "pack"}, {up, "unpack"}} {
+			switch {
+			case x.u.why != "":
+				x.u.name = "tuple_undetermined_" + wd.out + "_" + x.suf
+				poison(x.u.name, x.u.why)
+			case x.u.t.name != "":
+				x.u.name = "tuple_" + x.u.t.name
+			default:
+				x.u.name = "tuple_anonymous_" + wd.out + "_" + x.suf
+				emitTuple(x.u.name, "the tuple built in place for "+wd.recv, x.u.t.fields)
+			}
+		}
+		sf, ok := structs[wd.recv]
 		if !ok {
-			die("struct %s not found", w.recv)
+			structBad[wd.recv] = "struct " + wd.recv + " not found"
 		}
-		pk, ok1 := packOf[w.recv]
-		up, ok2 := unpackOf[w.recv]
-		if !ok1 || !ok2 {
-			die("%s: ABIPack / ABIDecode method not found", w.recv)
-		}
-		if _, ok := tuples[pk]; !ok {
-			die("%s.ABIPack uses %s, which is not a tuple built by abi.NewType in this package", w.recv, pk)
-		}
-		if _, ok := tuples[up]; !ok {
-			die("%s.ABIDecode uses %s, which is not a tuple built by abi.NewType in this package", w.recv, up)
+		if why, bad := structBad[wd.recv]; bad {
+			warn("%s_schema: struct %s: %s: schema without fields", wd.out, wd.recv, why)
+			fmt.Fprintf(&b, "(* POISONED: struct %s: %s *)\nDefinition %s_schema : schema :=\n  {| sc_struct :=\n  [];\n     sc_pack := %s; sc_unpack := %s |}.\n\n",
+				wd.recv, clean(why), wd.out, pk.name, up.name)
+			continue
 		}
 		var parts, human []string
 		for _, f := range sf {
@@ -410,17 +817,18 @@ func main() {
 			if f.hasTag {
 				tag = "(Some " + coqBytes(f.tag) + ")"
 			}
-			parts = append(parts, fmt.Sprintf("{| sf_go := %s; sf_tag := %s; sf_ty := %s |}", coqBytes(f.goName), tag,
-				coqTy(f.ty, "struct "+w.recv+"."+f.goName)))
+			ty, _ := coqTy(f.ty)
+			parts = append(parts, fmt.Sprintf("{| sf_go := %s; sf_tag := %s; sf_ty := %s |}", coqBytes(f.goName), tag, ty))
 			h := f.goName + " " + f.ty
 			if f.hasTag {
 				h += " json:" + strings.ReplaceAll(f.tag, "\"", "'")
 			}
 			human = append(human, h)
 		}
-		fmt.Fprintf(&b, "(* struct %s { %s }; ABIPack: %s; ABIDecode: %s *)\n", w.recv, strings.Join(human, "; "), pk, up)
-		fmt.Fprintf(&b, "Definition %s_schema : schema :=\n  {| sc_struct :=\n  [%s];\n     sc_pack := tuple_%s; sc_unpack := tuple_%s |}.\n\n",
-			w.out, strings.Join(parts, ";\n   "), pk, up)
+		fmt.Fprintf(&b, "(* struct %s { %s }; ABIPack: %s; ABIDecode: %s *)\n", wd.recv, strings.Join(human, "; "),
+			strings.TrimPrefix(pk.name, "tuple_"), strings.TrimPrefix(up.name, "tuple_"))
+		fmt.Fprintf(&b, "Definition %s_schema : schema :=\n  {| sc_struct :=\n  [%s];\n     sc_pack := %s; sc_unpack := %s |}.\n\n",
+			wd.out, strings.Join(parts, ";\n   "), pk.name, up.name)
 	}
 
 	path := filepath.Join(*out, "AbiSchemaGen.v")
